@@ -426,6 +426,9 @@ func (g *e1gen) meta(idx int) map[string]string {
 			// the whole entry (2 + len(k) + 2 + len(v) with one-byte prefixes)
 			k = fmt.Sprintf("b%d-%d", idx, i)
 			n := []int{126, 127, 128, 129, 16383, 16384}[g.pick(6)]
+			if g.cfg.ReaderMax > 0 && n > 1000 {
+				n = 129 // (the whole invoke-metadata packet has to stay below a configured reader maximum)
+			}
 			if g.chance(0.5) && n < 1000 {
 				n -= 4 + len(k)
 			}
